@@ -179,8 +179,10 @@ func (fn *LFunction) LocalName(regno, pc int) (string, bool) {
 		return "", false
 	}
 	p := fn.Proto
-	for i := 0; i < len(p.DbgLocals) && p.DbgLocals[i].StartPc < pc; i++ {
-		if pc < p.DbgLocals[i].EndPc {
+	// a local is active from StartPc (the first instruction after its declaration) up to and
+	// including EndPc (the last instruction of its block)
+	for i := 0; i < len(p.DbgLocals) && p.DbgLocals[i].StartPc <= pc; i++ {
+		if pc <= p.DbgLocals[i].EndPc {
 			regno--
 			if regno == 0 {
 				return p.DbgLocals[i].Name, true
